@@ -99,6 +99,7 @@ type Tx struct {
 	NonceOff   int64    // added to the expected nonce
 	FixedBytes []byte   // deliver exactly these bytes
 	Replay     int      // k>0: deliver again the bytes of the k-th most recent delivery of this history
+	StealSig   bool     // forge: keep this body (nonce filled in as usual) but carry the signature data of the most recent single-signature transaction of the same signer delivered in this history
 	Tags       []string // free-form classification used by monitors (e.g. "adversarial")
 }
 
